@@ -107,7 +107,7 @@ def work(item):
                     rec.append((F.where(f[0, 0]), list(fa._shifts[rIdx, cIdx]), list(fa._thetaShifts[rIdx, cIdx]), list(fa._lagrangeCoeffs[rIdx, cIdx])))
                 fa.step = step
                 fa.gridStep(g)
-            elif op in ('vpar', 'vpar_keep'):
+            elif op in ('vpar', 'vpar_keep', 'vpar_keep0'):
                 g = m['grid'].Grid(eta, [None] * 4, h4, 'v_parallel', comm=comm, dtype=object)
                 ph = m['grid'].Grid(eta[:3], [None] * 3, sw, 'v_parallel_1d', comm=comm, dtype=object)
                 dist.fill_grid(g, F.arr)
@@ -130,9 +130,10 @@ def work(item):
                                 der[a, b] = symx.uf('PG', K(r[gi[0]]), K(z[gz]), K(q[gq]))
                 L = h4.getLayout('v_parallel')
                 pgv = np.empty([L.shape[0], nz, nq], dtype=object)
-                rec.append(('dt', Fr(1, 2)))
-                va.gridStep(g, ph, PG(), pgv, K(Fr(1, 2)))
-                if op == 'vpar_keep':
+                dt0 = Fr(0) if op == 'vpar_keep0' else Fr(1, 2)          # a step of length 0 still has to leave the gradient behind
+                rec.append(('dt', dt0))
+                va.gridStep(g, ph, PG(), pgv, K(dt0))
+                if op in ('vpar_keep', 'vpar_keep0'):
                     # the kept gradient is used twice (Strang splitting does that), with different time steps
                     del rec[:]
                     rec.append(('dt', Fr(1, 2)))
@@ -235,7 +236,7 @@ def work(item):
             if len(seen) != nr * nv:
                 bad.append(z3.BoolVal(True))
                 where.append(('flux: %d of %d (r,v) surfaces advanced' % (len(seen), nr * nv), -1, -1, -1))
-        elif op in ('vpar', 'vpar_keep'):
+        elif op in ('vpar', 'vpar_keep', 'vpar_keep0'):
             for rk, (_, h4, rec) in enumerate(val):
                 L = h4.getLayout('v_parallel')
                 cur_dt = Fr(1, 2)
@@ -380,7 +381,7 @@ def float_replay(allm, item, hits):
                             fa.step(ref, j, i)
                             slice_errs.append(float(np.max(np.abs(ref - g.getAllData()[i, j]))))
                     return h4.getLayout('flux_surface'), g.getAllData().copy()
-                if op in ('vpar', 'vpar_keep'):
+                if op in ('vpar', 'vpar_keep', 'vpar_keep0'):
                     g = m['grid'].Grid(eta, [None] * 4, h4, 'v_parallel', comm=comm)
                     ph = m['grid'].Grid(eta[:3], [None] * 3, sw, 'v_parallel_1d', comm=comm)
                     dist.fill_grid(g, Fd)
@@ -393,8 +394,8 @@ def float_replay(allm, item, hits):
                             der[:] = phi_r * 7.0 + i * 0
                     L = h4.getLayout('v_parallel')
                     pgv = np.empty([L.shape[0], nz, nq])
-                    va.gridStep(g, ph, PG(), pgv, 0.5)
-                    if op == 'vpar_keep':
+                    va.gridStep(g, ph, PG(), pgv, 0.0 if op == 'vpar_keep0' else 0.5)
+                    if op in ('vpar_keep', 'vpar_keep0'):
                         dist.fill_grid(g, Fd)
                         va.gridStepKeepGradient(g, pgv, 0.5)
                         dist.fill_grid(g, Fd)
@@ -447,9 +448,9 @@ def float_replay(allm, item, hits):
                 for iv in range(nv):
                     want[:, :, iz, iv] = float(np.sum(Pd[:, :, iz])) + 1000.0 * v[iv]
             abs_err = float(np.max(np.abs(serial - want)))
-        if op in ('vpar', 'vpar_keep'):
+        if op in ('vpar', 'vpar_keep', 'vpar_keep0'):
             # absolute reference for the recording kernels of this replay: every v line holds 7 phi(r,theta,z) dt + 1000 r
-            last_dt = 0.25 if op == 'vpar_keep' else 0.5
+            last_dt = 0.25 if op in ('vpar_keep', 'vpar_keep0') else 0.5
             want = np.empty(SHAPE)
             for ir in range(nr):
                 want[ir] = (7.0 * Pd[ir] * last_dt + 1000.0 * r[ir])[:, :, None]
@@ -461,9 +462,9 @@ def float_replay(allm, item, hits):
         numenv.enable()
     if err > 1e-9:
         return 'operator %s on process grid %s differs from the serial run by %.3g' % (op, list(nprocs), err)
-    if abs_err > 1e-6 and op in ('vpar', 'vpar_keep'):
+    if abs_err > 1e-6 and op in ('vpar', 'vpar_keep', 'vpar_keep0'):
         return 'operator %s (one process): the 1-D steps do not receive gradient x dt and radius of their own (r, theta, z) line%s (deviation %.3g)' % (
-            op, ', second use of the kept gradient with another time step' if op == 'vpar_keep' else '', abs_err)
+            op, ', second use of the kept gradient with another time step' if op != 'vpar' else '', abs_err)
     if abs_err > 1e-6:
         return 'operator %s (one process): the per-plane kernel does not receive the potential plane and velocity of its own (z, v) slice (deviation %.3g)' % (op, abs_err)
     if slice_errs and max(slice_errs) > 1e-9:
@@ -496,7 +497,7 @@ def main():
     grids = [(1, 1), (2, 1), (1, 2), (2, 2)] if quick else [(a, b) for a in (1, 2, 3) for b in (1, 2, 3)]
     items = []
     for grid in grids:
-        for op in ('flux', 'vpar', 'vpar_keep', 'pol', 'pol_keep', 'init_flux_surface', 'init_poloidal', 'init_v_parallel'):
+        for op in ('flux', 'vpar', 'vpar_keep', 'vpar_keep0', 'pol', 'pol_keep', 'init_flux_surface', 'init_poloidal', 'init_v_parallel'):
             for iota in (('zero', 'radial') if op == 'flux' else ('radial',)):
                 items.append((op, grid, iota, None))
     # radial blocks of different sizes with more than one radius on the later rank (5 radii over 2 processes: 3 + 2)
